@@ -2,12 +2,14 @@ module verifharness
 
 go 1.24.7
 
-require github.com/gopher-fleece/gleece/v2 v2.0.0
+require (
+	github.com/gopher-fleece/gleece/v2 v2.0.0
+	github.com/titanous/json5 v1.0.0
+)
 
 require (
 	github.com/deckarep/golang-set/v2 v2.8.0 // indirect
 	github.com/gopher-fleece/runtime v1.2.1 // indirect
-	github.com/titanous/json5 v1.0.0 // indirect
 	golang.org/x/mod v0.30.0 // indirect
 	golang.org/x/sync v0.18.0 // indirect
 	golang.org/x/tools v0.39.0 // indirect
